@@ -526,6 +526,10 @@ def normalise_atom(expr, value):
                 return expr, value
             expr, value = red
             continue
+        if k == "bin" and expr[1] in ("Le", "Ge") and isinstance(value, bool) and (_const_int(expr[2]) is not None or _const_int(expr[3]) is not None):
+            # integer comparisons: `a <= n` is `!(a > n)` (floats are left alone: NaN)
+            expr, value = ("bin", "Gt" if expr[1] == "Le" else "Lt", expr[2], expr[3]), (not value)
+            continue
         if k == "discr":
             inner = expr[1]
             if isinstance(value, str):
